@@ -321,3 +321,80 @@ Proof.
   replace 16 with (2 ^ 4) by reflexivity. rewrite <- Z.pow_mul_r by (pose proof (Z.div_pos (n - 1) 4 ltac:(lia) ltac:(lia)); lia).
   apply Z.pow_le_mono_r; [lia|]. pose proof (Z.div_mod (n - 1) 4 ltac:(lia)). pose proof (Z.mod_pos_bound (n - 1) 4 ltac:(lia)). lia.
 Qed.
+
+(* ---- parse (hex_format p) = p ---- *)
+Lemma isdig_b c : isdig c -> isdigb c = true.
+Proof. unfold isdig, isdigb. intros [H1 H2]. apply andb_true_iff; split; apply Z.leb_le; lia. Qed.
+Lemma span_dig_app : forall ds c r, Forall isdig ds -> isdigb c = false -> span_dig (ds ++ c :: r) = (ds, c :: r).
+Proof.
+  induction ds as [|d ds IH]; intros c r F Hc; cbn [app span_dig].
+  - rewrite Hc. reflexivity.
+  - inversion F as [|? ? Hd Hds]; subst. rewrite (isdig_b d Hd), (IH c r Hds Hc). reflexivity.
+Qed.
+Lemma dec_one_digit es : 0 <= es <= 9 -> dec_of_nat es = [48 + es].
+Proof.
+  intros H. assert (E : exists k, (k < 10)%nat /\ es = Z.of_nat k) by (exists (Z.to_nat es); lia).
+  destruct E as (k & Hk & ->). do 10 (destruct k as [|k]; [reflexivity|]). lia.
+Qed.
+Lemma hexit_props d : 0 <= d < 16 -> iswordb (hexit d) = true /\ Z.eqb (hexit d) 112 = false.
+Proof.
+  intros H. assert (E : exists k, (k < 16)%nat /\ d = Z.of_nat k) by (exists (Z.to_nat d); lia).
+  destruct E as (k & Hk & ->). do 16 (destruct k as [|k]; [split; reflexivity|]). lia.
+Qed.
+Lemma hex_fixed_chars : forall (k : nat) a, Forall (fun c => iswordb c = true /\ Z.eqb c 112 = false) (hex_fixed k a).
+Proof.
+  induction k as [|k IH]; intros a; cbn [hex_fixed]; [constructor|].
+  apply Forall_app; split; [apply IH|]. constructor; [|constructor].
+  apply hexit_props. apply Z.mod_pos_bound. lia.
+Qed.
+Lemma take_until_app l : Forall (fun c => Z.eqb c 112 = false) l -> take_until 112 (l ++ [112]) = l.
+Proof.
+  induction l as [|c l IH]; intros F; cbn [app take_until]; [reflexivity|].
+  inversion F as [|? ? Hc Hl]; subst. rewrite Hc, (IH Hl). reflexivity.
+Qed.
+Lemma hex_run_all : forall l acc v seen, parse_digits 16 l acc = Some v ->
+  hex_run l acc seen = (v, match l with [] => seen | _ => true end).
+Proof.
+  induction l as [|c l IH]; intros acc v seen H; cbn [parse_digits hex_run] in *.
+  - injection H as ->. reflexivity.
+  - destruct (digit_val c) as [d|]; [|discriminate]. destruct (Z.ltb d 16); [|discriminate].
+    rewrite (IH _ _ true H). destruct l; reflexivity.
+Qed.
+Lemma hex_fixed_nonempty k a : hex_fixed (S k) a <> [].
+Proof. cbn [hex_fixed]. intro H. apply app_eq_nil in H. destruct H as [_ H]. discriminate. Qed.
+
+Theorem posit_parse_hex_format n es a : 1 <= n <= 64 -> 0 <= es <= 9 -> 0 <= a < 2 ^ n ->
+  posit_parse n (posit_hex_string n es a) = Some a.
+Proof.
+  intros Hn Hes Ha. unfold posit_hex_string, posit_parse, posit_regex_fields.
+  destruct (dec_of_nat_spec n ltac:(lia)) as (ds & Eds & Fds & Vds & NEds).
+  pose proof (parse_dec_of_nat n ltac:(lia)) as Pn. rewrite Eds in *.
+  rewrite (dec_one_digit es Hes).
+  set (k := Z.to_nat (if Z.ltb n 4 then 1 else (n + 3) / 4)).
+  assert (Hk : (1 <= k)%nat /\ n <= 4 * Z.of_nat k).
+  { unfold k. destruct (Z.ltb_spec n 4); [split; [cbn; lia | change (Z.of_nat (Z.to_nat 1)) with 1; lia]|].
+    pose proof (Z.div_mod (n + 3) 4 ltac:(lia)). pose proof (Z.mod_pos_bound (n + 3) 4 ltac:(lia)).
+    split; [lia | rewrite Z2Nat.id by lia; lia]. }
+  destruct Hk as [Hk1 Hk4].
+  assert (Ha16 : 0 <= a < 16 ^ Z.of_nat k).
+  { split; [lia|]. eapply Z.lt_le_trans; [apply Ha|]. replace 16 with (2 ^ 4) by reflexivity.
+    rewrite <- Z.pow_mul_r by lia. apply Z.pow_le_mono_r; lia. }
+  cbn [app]. rewrite span_dig_app by (try exact Fds; reflexivity).
+  destruct ds as [|d0 ds']; [congruence|].
+  set (H := hex_fixed k a) in *.
+  pose proof (hex_fixed_chars k a) as FH. fold H in FH.
+  assert (Hw : isdigb (48 + es) = true) by (unfold isdigb; apply andb_true_iff; split; apply Z.leb_le; lia).
+  rewrite Hw. cbn [Z.eqb Pos.eqb orb andb forallb].
+  assert (Hall : forallb iswordb (H ++ [112]) = true).
+  { apply forallb_forall. intros c Hc. apply in_app_or in Hc. destruct Hc as [Hc | [<- | []]]; [|reflexivity].
+    rewrite Forall_forall in FH. apply (FH c Hc). }
+  change (iswordb 48) with true. change (iswordb 120) with true. cbn [andb]. rewrite Hall.
+  rewrite Pn. cbn [take_until Z.eqb Pos.eqb].
+  rewrite take_until_app by (eapply Forall_impl; [|exact FH]; intros c [_ Hc]; exact Hc).
+  unfold stream_hex. rewrite (hex_run_all H 0 a false) by (unfold H; rewrite hex_fixed_parse by exact Ha16; f_equal; lia).
+  assert (HNE : H <> []) by (unfold H; destruct k as [|k']; [lia | apply hex_fixed_nonempty]).
+  destruct H as [|h0 H']; [congruence|].
+  assert (A64 : a <? 2 ^ 64 = true).
+  { apply Z.ltb_lt. eapply Z.lt_le_trans; [apply Ha|]. apply Z.pow_le_mono_r; lia. }
+  rewrite A64. rewrite Z.ltb_irrefl. f_equal. apply Z.mod_small. exact Ha.
+Qed.
